@@ -235,7 +235,12 @@ impl Backend {
                 // Find where in the fixture the dependency is referenced
                 // (parameter position in the signature)
                 let from_ranges = self
-                    .find_parameter_ranges(&file_path, definition.line, dep_name)
+                    .find_parameter_ranges(
+                        &file_path,
+                        definition.line,
+                        definition.end_line,
+                        dep_name,
+                    )
                     .unwrap_or_else(|| vec![to_range]);
 
                 outgoing_calls.push(CallHierarchyOutgoingCall {
@@ -250,34 +255,40 @@ impl Backend {
     }
 
     /// Find the range(s) where a parameter name appears in a function signature.
+    ///
+    /// Uses the parameter positions recorded by the analyzer (a textual search on the def
+    /// line would hit the function's own name or another word containing the parameter
+    /// name, and would miss parameters on continuation lines).
     fn find_parameter_ranges(
         &self,
         file_path: &std::path::Path,
         line: usize,
+        end_line: usize,
         param_name: &str,
     ) -> Option<Vec<Range>> {
-        let content = self.fixture_db.file_cache.get(file_path)?;
-        let lines: Vec<&str> = content.lines().collect();
+        let usages = self.fixture_db.usages.get(file_path)?;
+        let ranges: Vec<Range> = usages
+            .iter()
+            .filter(|u| u.name == param_name && u.line >= line && u.line <= end_line)
+            .map(|u| {
+                let lsp_line = Self::internal_line_to_lsp(u.line);
+                Range {
+                    start: Position {
+                        line: lsp_line,
+                        character: u.start_char as u32,
+                    },
+                    end: Position {
+                        line: lsp_line,
+                        character: u.end_char as u32,
+                    },
+                }
+            })
+            .collect();
 
-        // Get the line (0-indexed internally, but definition.line is 1-indexed)
-        let line_content = lines.get(line.saturating_sub(1))?;
-
-        // Find the parameter in the line
-        if let Some(start) = line_content.find(param_name) {
-            let lsp_line = Self::internal_line_to_lsp(line);
-            let range = Range {
-                start: Position {
-                    line: lsp_line,
-                    character: start as u32,
-                },
-                end: Position {
-                    line: lsp_line,
-                    character: (start + param_name.len()) as u32,
-                },
-            };
-            return Some(vec![range]);
+        if ranges.is_empty() {
+            None
+        } else {
+            Some(ranges)
         }
-
-        None
     }
 }
